@@ -19,17 +19,17 @@ ID = "C19"
 LEVEL = "fault_enumeration"
 COUNTS = {"quick": 600, "thorough": 40000}
 RULE = ("each run = one fresh import of the library under one of the 4 presence combinations of the sgio/iscsi bindings (absence is the "
-        "injected fault; a missing binding is either not installed = ModuleNotFoundError, or installed but failing to load = ImportError), then: import of every module under pyscsi, construct+encode+decode of every command class, facade calls over "
+        "injected fault), then: import of every module under pyscsi, construct+encode+decode of every command class, facade calls over "
         "plain recording device objects (block, tape, MMC, changer types; command set per type), and 4-12 init_device / SCSIDevice / ISCSIDevice calls with device strings from the listed families "
-        "plus random strings, read-only/read-write, explicit/default/empty initiator names. Enumerated: 4 combinations x {absent, unloadable} x every listed "
+        "plus random strings, read-only/read-write, explicit/default/empty initiator names. Enumerated: 4 combinations x every listed "
         "string x rw x {init_device, constructors} (complete in both tiers). Non-trivial = at least one refusal and (when a binding is "
         "present) one accepted device in the same run; distinct = event digest")
-ENUMERATED_NOTE = "4 binding-presence combinations x {not installed, fails to load} x 17 device strings x read-only/read-write x {init_device, SCSIDevice, ISCSIDevice} x {default, explicit} initiator name"
+ENUMERATED_NOTE = "4 binding-presence combinations x 17 device strings x read-only/read-write x {init_device, SCSIDevice, ISCSIDevice} x {default, explicit} initiator name"
 COMPONENTS = {"real": ["every module under pyscsi (fresh import per run)", "init_device", "SCSIDevice/ISCSIDevice constructors", "all command classes", "SCSI facade"],
               "stubs": ["sgio / iscsi modules (present or absent)", "virtual /dev", "socket.gethostname", "plain recording device"],
               "simulated_peers": ["t10.targets.BlockLU behind the accepted devices"]}
 ASSUMPTIONS = [
-    "absence of a binding is simulated by sys.modules[name] = None, which makes `import name` raise ModuleNotFoundError as for a module that is not installed; a binding that is installed but cannot be loaded is simulated by a meta-path finder raising plain ImportError (what a stale or ABI-mismatched extension module raises). Both count as 'missing'",
+    "absence of a binding is simulated by sys.modules[name] = None, which makes `import name` raise ModuleNotFoundError as for a module that is not installed. A binding that is installed but fails to load (plain ImportError) is neither 'installed' nor 'missing' in the property's four combinations: the seam can simulate it (config missing_as=unloadable, used by replay files only) but it is not generated and not judged",
     "for a string with the right prefix and the binding present the library may fail with an OS/URL error from the binding (e.g. '/dev/' is a directory, 'iscsi://' has no target); then at most the one open/URL event on exactly that string is allowed",
     "an explicitly empty initiator name is not judged (the library substitutes the URL)",
 ]
@@ -73,15 +73,13 @@ def gen_devop(rng):
 
 
 def generate(rng, idx, tier):
-    return {"property": ID, "config": {"sgio": rng.random() < 0.5, "iscsi": rng.random() < 0.5, "hostname": rng.choice(["simhost", "node-7", "a.b.c"]),
-                                       # how a missing binding is missing: not installed, or installed but failing to load
-                                       "missing_as": rng.choice(["absent", "absent", "unloadable"])},
+    return {"property": ID, "config": {"sgio": rng.random() < 0.5, "iscsi": rng.random() < 0.5, "hostname": rng.choice(["simhost", "node-7", "a.b.c"])},
             "ops": [{"op": "import_all"}, {"op": "commands", "seed": rng.randrange(1 << 30)}, {"op": "facade", "seed": rng.randrange(1 << 30)}]
             + [gen_devop(rng) for _ in range(rng.randrange(4, 13))]}
 
 
 def enumerated_count(tier):
-    return 4 * 2 * 3 * 2 * 2
+    return 4 * 2 * 3 * 2
 
 
 def enumerated(k, tier):
@@ -97,8 +95,7 @@ def enumerated(k, tier):
         if explicit:
             op["initiator"] = "iqn.2026-10.verif:explicit"
         ops.append(op)
-    return {"property": ID, "config": {"sgio": bool(combo & 1), "iscsi": bool(combo & 2), "hostname": "simhost",
-                                       "missing_as": "unloadable" if (k // 48) % 2 else "absent"}, "ops": ops}
+    return {"property": ID, "config": {"sgio": bool(combo & 1), "iscsi": bool(combo & 2), "hostname": "simhost"}, "ops": ops}
 
 
 PINNED_OPS = 0
